@@ -1,7 +1,7 @@
 //! Property runner: proptest driven from a binary on several worker threads, statistics, evidence
 //! files, replay files, known findings, watchdog.
 
-use proptest::strategy::{BoxedStrategy, Strategy};
+use proptest::strategy::BoxedStrategy;
 use proptest::test_runner::{Config, RngSeed, TestCaseError, TestError, TestRunner};
 use serde_json::{json, Value};
 use std::cell::RefCell;
